@@ -1,6 +1,51 @@
 import ctypes
 from enum import Enum
 
+_INT_RANGES = {
+    ctypes.c_uint8: (0, 2**8 - 1),
+    ctypes.c_uint16: (0, 2**16 - 1),
+    ctypes.c_uint32: (0, 2**32 - 1),
+    ctypes.c_int32: (-(2**31), 2**31 - 1),
+}
+
+
+def _check_field_ranges(struct, args, kwargs):
+    """Raise a ValueError if an integer given for a field of a ctypes structure
+    does not fit in that field (ctypes itself silently truncates)."""
+    fields = []
+    for klass in reversed(type(struct).__mro__):
+        fields += list(klass.__dict__.get("_fields_", []))
+    values = dict(zip((field[0] for field in fields), args))
+    values.update(kwargs)
+    for field in fields:
+        name, ctype = field[0], field[1]
+        if name not in values:
+            continue
+        value = values[name]
+        if isinstance(value, (tuple, list)) and issubclass(ctype, ctypes.Array):
+            ctype = ctype._type_
+            elements = list(value)
+        else:
+            elements = [value]
+        if ctype not in _INT_RANGES:
+            continue
+        low, high = _INT_RANGES[ctype]
+        if len(field) == 3:
+            low, high = 0, 2 ** field[2] - 1
+        for element in elements:
+            if isinstance(element, int) and not low <= element <= high:
+                raise ValueError(
+                    f"value {element} for field {name} of {type(struct).__name__} "
+                    f"is outside the encodable range [{low}, {high}]"
+                )
+
+
+class _RangeCheckedStructure(ctypes.Structure):
+    def __init__(self, *args, **kwargs):
+        _check_field_ranges(self, args, kwargs)
+        super().__init__(*args, **kwargs)
+
+
 ############
 # METADATA #
 ############
@@ -8,7 +53,7 @@ NETQASM_VERSION = ctypes.c_uint8 * 2
 APP_ID = ctypes.c_uint16
 
 
-class Metadata(ctypes.Structure):
+class Metadata(_RangeCheckedStructure):
     _fields_ = [
         ("netqasm_version", NETQASM_VERSION),
         ("app_id", APP_ID),
@@ -80,7 +125,7 @@ class RegisterName(Enum):
     M = 3
 
 
-class Register(ctypes.Structure):
+class Register(_RangeCheckedStructure):
     _fields_ = [
         ("register_name", REG_TYPE, REG_NAME_BITS),
         ("register_index", REG_TYPE, REG_INDEX_BITS),
@@ -88,7 +133,7 @@ class Register(ctypes.Structure):
     ]
 
 
-class Address(ctypes.Structure):
+class Address(_RangeCheckedStructure):
     _fields_ = [
         ("address", ADDRESS),
     ]
@@ -118,6 +163,7 @@ class Command(ctypes.Structure):
     ]
 
     def __init__(self, *args, **kwargs):
+        _check_field_ranges(self, args, kwargs)
         try:
             super().__init__(*args, **kwargs)
         except TypeError as err:
